@@ -2,15 +2,16 @@
 # setup_cmd: build the tools from files on disk only and warm the go1.26.8 build cache.
 set -e
 export GOFLAGS=-mod=mod GOPROXY=off GOSUMDB=off GOTOOLCHAIN=local
-cd /verif/sim
-mkdir -p /verif/bin
-go1.26.8 build -o /verif/bin/gsinstr ./cmd/gsinstr
-go1.26.8 build -o /verif/bin/gscheck ./cmd/gscheck
-go1.26.8 build -o /verif/bin/gsworld ./cmd/gsworld
+V="$(dirname "$(readlink -f "$0")")"
+cd "$V/sim"
+mkdir -p "$V/bin"
+go1.26.8 build -o "$V"/bin/gsinstr ./cmd/gsinstr
+go1.26.8 build -o "$V"/bin/gscheck ./cmd/gscheck
+go1.26.8 build -o "$V"/bin/gsworld ./cmd/gsworld
 # warm the cache: std for the test binary (plain and -race)
 S=$(mktemp -d /dev/shm/gsim-setup-XXXX 2>/dev/null || mktemp -d)
 trap 'rm -rf "$S"' EXIT
-/verif/bin/gsinstr -src /repo -out "$S/gophersat" -rt /verif/sim/rt >/dev/null
+"$V"/bin/gsinstr -src /repo -out "$S/gophersat" -rt "$V/sim/rt" >/dev/null
 printf 'module gsim\n\ngo 1.26\n\nrequire github.com/crillab/gophersat v0.0.0\n\nreplace github.com/crillab/gophersat => %s\n' "$S/gophersat" > "$S/engine.mod"
 : > "$S/engine.sum"
 go1.26.8 test -c -tags verifsim -modfile="$S/engine.mod" -o "$S/engine.test" ./engine
